@@ -91,6 +91,9 @@ pub enum HOp {
     DeleteEdgeQ(usize, usize),
     /// plain (non-detach) DELETE of a node that has no incident edge in the writer's view
     DeleteNodePlainQ(usize, usize),
+    /// `MATCH (a) WHERE id(a) = x CREATE (a)-[:R {k: v}]->(:L {k: v})`: a CREATE fed by an input
+    /// operator that makes a node *and* an edge per matched row (session, anchor, label, value)
+    MatchCreatePathQ(usize, usize, u8, i64),
 }
 
 impl HOp {
@@ -151,6 +154,7 @@ impl HOp {
             HOp::CypherCreate(..) => "cypher-CREATE",
             HOp::DeleteEdgeQ(..) => "DELETE-edge",
             HOp::DeleteNodePlainQ(..) => "DELETE-node",
+            HOp::MatchCreatePathQ(..) => "MATCH-CREATE-path",
         }
     }
     pub fn is_observation(&self) -> bool {
@@ -198,7 +202,7 @@ impl HOp {
             HOp::LabelScan(s, _) | HOp::AllScan(s) | HOp::Expand(s) | HOp::Count(s) | HOp::GetNode(s, _) | HOp::GetEdge(s, _) | HOp::NodeExists(s, _) | HOp::NodesBatch(s, _) | HOp::NeighborsOut(s, _) | HOp::Triples(s) => Some(*s),
             HOp::CypherLabelScan(s, _) | HOp::ParamsLabelScan(s, _) | HOp::GremlinLabel(s, _) | HOp::GremlinOut(s) | HOp::GraphqlLabel(s, _) | HOp::SumCount(s) | HOp::FilterGt(s, _) | HOp::EdgeCount(s) | HOp::TwoHop(s) | HOp::TwoHopCount(s) | HOp::TwoHopSum(s) => Some(*s),
             HOp::GetNodeProp(s, ..) | HOp::NeighborsIn(s, _) | HOp::NeighborsOutByType(s, _) | HOp::EdgeExists(s, _) | HOp::Degree(s, _) | HOp::TriplesBySubject(s, _) => Some(*s),
-            HOp::CypherCreate(s, ..) | HOp::DeleteEdgeQ(s, _) | HOp::DeleteNodePlainQ(s, _) => Some(*s),
+            HOp::CypherCreate(s, ..) | HOp::DeleteEdgeQ(s, _) | HOp::DeleteNodePlainQ(s, _) | HOp::MatchCreatePathQ(s, ..) => Some(*s),
             _ => None,
         }
     }
@@ -320,6 +324,8 @@ pub struct Spec {
     pub commit_seq: u64,
     /// (commit sequence number, entities modified) of committed transactions
     pub commit_log: Vec<(u64, BTreeSet<(bool, usize)>)>,
+    /// edge slot for an operation that creates a node and an edge at once
+    pub next_eslot: usize,
 }
 
 impl Spec {
@@ -490,6 +496,8 @@ macro_rules! system {
                 /// for the two-hop observations: the answer derived from this system's own
                 /// single-hop expand answer, taken in the same step by the same session
                 pub side: Option<Vec<String>>,
+                /// edge slot for an operation that creates a node and an edge at once
+                pub next_eslot: usize,
             }
 
             fn val_i(v: &Value) -> Option<i64> {
@@ -503,7 +511,7 @@ macro_rules! system {
                 pub fn new(n_sessions: usize) -> Sys {
                     let db = GrafeoDB::new_in_memory();
                     let sessions = (0..n_sessions).map(|_| Some(db.session())).collect();
-                    Sys { db, sessions, ids: IdMap::default(), side: None }
+                    Sys { db, sessions, ids: IdMap::default(), side: None, next_eslot: 0 }
                 }
 
                 fn n(&self, id: u64) -> String {
@@ -705,6 +713,32 @@ macro_rules! system {
                                 Err(e) => vec![e],
                             }
                         }
+                        HOp::MatchCreatePathQ(s, a, l, v) => match self.nid(*a) {
+                            Some(x) => {
+                                let before: BTreeSet<u64> = self.ids.edge_of.keys().copied().collect();
+                                let text = format!("MATCH (a) WHERE id(a) = {x} CREATE (a)-[:R {{k: {v}}}]->(:{} {{k: {v}}})", LABELS[*l as usize % 3]);
+                                match q(self.sessions[*s].as_ref().unwrap(), &text) {
+                                    Ok(_) => {
+                                        // no id is returned: the new edge is the fresh outgoing one of a, the new node its target
+                                        let outs = self.sessions[*s].as_ref().unwrap().get_neighbors_outgoing(NodeId::new(x));
+                                        let mut fresh: Vec<(u64, u64)> = outs.iter().map(|(d, e)| (e.as_u64(), d.as_u64())).filter(|(e, _)| !before.contains(e)).collect();
+                                        fresh.sort_unstable();
+                                        if let Some((e, d)) = fresh.last() {
+                                            let es = self.next_eslot;
+                                            self.reg_edge(es, *e);
+                                            if !self.ids.node_of.contains_key(d) {
+                                                self.reg_node(new_slot, *d);
+                                            }
+                                            vec!["created".into()]
+                                        } else {
+                                            vec!["created-nothing".into()]
+                                        }
+                                    }
+                                    Err(e) => vec![e],
+                                }
+                            }
+                            None => vec!["skipped".into()],
+                        },
                         HOp::DeleteNodePlainQ(s, n) => match self.nid(*n) {
                             Some(id) => vec![q(self.sessions[*s].as_ref().unwrap(), &format!("MATCH (n) WHERE id(n) = {id} DELETE n")).map(|_| "ok".to_string()).unwrap_or_else(|e| e)],
                             None => vec!["skipped".into()],
@@ -1257,6 +1291,14 @@ pub fn spec_apply(spec: &mut Spec, op: &HOp, new_slot: usize, st: Option<usize>)
         HOp::AddLabelQ(_, nn, l) | HOp::DbAddLabel(nn, l) => spec.write(st, W::AddLabel(*nn, LABELS[*l as usize % 3].to_string())),
         HOp::RemoveLabelQ(_, nn, l) => spec.write(st, W::RemoveLabel(*nn, LABELS[*l as usize % 3].to_string())),
         HOp::DeleteNodeQ(_, nn) | HOp::DeleteNodePlainQ(_, nn) => spec.write(st, W::DetachDelete(*nn)),
+        HOp::MatchCreatePathQ(_, a, l, v) => {
+            // the statement matches nothing (and creates nothing) when the anchor is not in view
+            if spec.view(st).nodes.contains_key(a) {
+                let es = spec.next_eslot;
+                spec.write(st, W::CreateNode(new_slot, vec![LABELS[*l as usize % 3].to_string()], vec![("k".to_string(), *v)]));
+                spec.write(st, W::CreateEdge(es, *a, new_slot, Some(*v)));
+            }
+        }
         HOp::DbDeleteEdge(e) => spec.write(None, W::DeleteEdge(*e)),
         HOp::DeleteEdgeQ(_, e) => spec.write(st, W::DeleteEdge(*e)),
         HOp::TripleInsert(_, t) => spec.write(st, W::TripleIns(*t)),
@@ -1342,7 +1384,7 @@ pub fn exec(cfg: &Config, ops: &[HOp]) -> ExecResult {
     let n = cfg.sessions;
     let mut real = real::Sys::new(n);
     let mut pin = pin::Sys::new(n);
-    let mut spec = Spec { cur: SState::default(), txs: vec![None; n], discarded: Vec::new(), commit_seq: 0, commit_log: Vec::new() };
+    let mut spec = Spec { cur: SState::default(), txs: vec![None; n], discarded: Vec::new(), commit_seq: 0, commit_log: Vec::new(), next_eslot: 0 };
     let mut findings: Vec<(String, String)> = Vec::new();
     let mut probes: BTreeMap<&'static str, u64> = BTreeMap::new();
     let mut log: Vec<String> = Vec::new();
@@ -1367,10 +1409,13 @@ pub fn exec(cfg: &Config, ops: &[HOp]) -> ExecResult {
         }
         // slot for creations
         let (is_node_create, is_edge_create) = (
-            matches!(op, HOp::CreateNode(..) | HOp::CreateNodeProps(..) | HOp::InsertQ(..) | HOp::DbCreateNode(_) | HOp::CypherCreate(..)),
-            matches!(op, HOp::CreateEdge(..) | HOp::CreateEdgeQ(..)),
+            matches!(op, HOp::CreateNode(..) | HOp::CreateNodeProps(..) | HOp::InsertQ(..) | HOp::DbCreateNode(_) | HOp::CypherCreate(..) | HOp::MatchCreatePathQ(..)),
+            matches!(op, HOp::CreateEdge(..) | HOp::CreateEdgeQ(..) | HOp::MatchCreatePathQ(..)),
         );
         let new_slot = if is_node_create { n_slots } else { e_slots };
+        real.next_eslot = e_slots;
+        pin.next_eslot = e_slots;
+        spec.next_eslot = e_slots;
         // ---- the two real systems ----
         let r_real = match guarded(|| real.step(op, new_slot)) {
             Ok(r) => r,
@@ -1526,7 +1571,7 @@ pub fn exec(cfg: &Config, ops: &[HOp]) -> ExecResult {
 // Generation
 // ------------------------------------------------------------------------------------------
 
-const MUT_KINDS: usize = 16;
+const MUT_KINDS: usize = 17;
 
 struct Gen<'a> {
     rng: &'a mut Prng,
@@ -1574,9 +1619,10 @@ impl Gen<'_> {
         let s = op.session();
         let in_tx = s.is_some_and(|s| self.spec.txs[s].is_some());
         let st = if in_tx { s } else { None };
-        let is_n = matches!(op, HOp::CreateNode(..) | HOp::CreateNodeProps(..) | HOp::InsertQ(..) | HOp::DbCreateNode(_) | HOp::CypherCreate(..));
-        let is_e = matches!(op, HOp::CreateEdge(..) | HOp::CreateEdgeQ(..));
+        let is_n = matches!(op, HOp::CreateNode(..) | HOp::CreateNodeProps(..) | HOp::InsertQ(..) | HOp::DbCreateNode(_) | HOp::CypherCreate(..) | HOp::MatchCreatePathQ(..));
+        let is_e = matches!(op, HOp::CreateEdge(..) | HOp::CreateEdgeQ(..) | HOp::MatchCreatePathQ(..));
         let slot = if is_n { self.n_slots } else { self.e_slots };
+        self.spec.next_eslot = self.e_slots;
         // locks
         if let (Some(s), true) = (s, in_tx) {
             match &op {
@@ -1604,13 +1650,16 @@ impl Gen<'_> {
                     self.locked_n.insert(*a, s);
                     self.locked_n.insert(*b, s);
                 }
+                HOp::MatchCreatePathQ(_, a, ..) => {
+                    self.locked_n.insert(*a, s);
+                }
                 _ => {}
             }
             if is_n {
                 self.locked_n.insert(slot, s);
             }
             if is_e {
-                self.locked_e.insert(slot, s);
+                self.locked_e.insert(self.e_slots, s);
             }
         }
         let (_, ended) = spec_apply(&mut self.spec, &op, slot, st);
@@ -1670,6 +1719,7 @@ impl Gen<'_> {
                 }
                 HOp::DeleteNodePlainQ(s, *rng.pick(&cands))
             }
+            16 => HOp::MatchCreatePathQ(s, pickn(rng)?, rng.below(3) as u8, u),
             // direct API: only outside a transaction of this session and on unlocked targets
             _ => {
                 if in_tx {
@@ -1752,7 +1802,7 @@ pub fn generate(rng: &mut Prng, property: &str, thorough: bool) -> (Config, Vec<
         kinds = vec![5, 5, 6, 7, 8, 9, 10, 1];
     }
     let rollback_w = if rng.chance(1, 3) { 0 } else { rng.range(1, 3) };
-    let mut g = Gen { rng, spec: Spec { cur: SState::default(), txs: vec![None; sessions], discarded: vec![], commit_seq: 0, commit_log: vec![] }, n_slots: 0, e_slots: 0, uniq: 0, locked_n: BTreeMap::new(), locked_e: BTreeMap::new(), ops: Vec::new(), allow_conflicts: property == "C03" };
+    let mut g = Gen { rng, spec: Spec { cur: SState::default(), txs: vec![None; sessions], discarded: vec![], commit_seq: 0, commit_log: vec![], next_eslot: 0 }, n_slots: 0, e_slots: 0, uniq: 0, locked_n: BTreeMap::new(), locked_e: BTreeMap::new(), ops: Vec::new(), allow_conflicts: property == "C03" };
     // a little committed data to start from
     for _ in 0..g.rng.range(0, 3) {
         let k = *g.rng.pick(&[0usize, 1, 2]);
